@@ -42,7 +42,8 @@ var vVariants = []string{"A", "C", "D", "E", "F"}
 func VH_History(a []int) {
 	M, P, opts := a[0], a[1], a[2]
 	w := &vWorld{}
-	set := vNewSet(int32(P))
+	// replicas <= P: pods at ordinals >= replicas are condemned but still name their revision
+	set := vNewSet(int32(sym.Pick("replicas", P+1)))
 	set.Spec.PodManagementPolicy = apps.ParallelPodManagement
 	lim := sym.Int32("historyLimit")
 	sym.Assume(lim >= 0)
